@@ -91,7 +91,7 @@ inductive GoVal where
   | array (tstr elemT : Bytes) (elems : GoVals)
   | map (tstr : Bytes) (keyIsString : Bool) (isNil : Bool) (entries : Entries)   -- entries in iteration order
   | struct (tstr tname : Bytes) (isTime : Bool) (fields : Fields)
-  | other (kind : Nat) (tstr : Bytes)                -- func / chan / complex …: kind number only
+  | other (kind : Nat) (tstr tname : Bytes) (zero : Bool)   -- func / chan / complex …: kind number, Type().String(), Type().Name(), IsZero()
 inductive GoVals where
   | nil
   | cons (v : GoVal) (vs : GoVals)
@@ -143,7 +143,7 @@ def GoVal.kind : GoVal → Kind
   | .array _ _ _ => .array
   | .map _ _ _ _ => .map
   | .struct _ _ _ _ => .struct
-  | .other _ _ => .other
+  | .other _ _ _ _ => .other
 
 def bitsSuffix (bits : Nat) : Bytes := if bits == 0 then [] else natToBytes bits
 
@@ -160,7 +160,7 @@ def GoVal.typeString : GoVal → Bytes
   | .array t _ _ => t
   | .map t _ _ _ => t
   | .struct t _ _ _ => t
-  | .other _ t => t
+  | .other _ t _ _ => t
 
 /-- `Type().Name()`: empty for unnamed composite types -/
 def GoVal.typeName : GoVal → Bytes
@@ -170,7 +170,7 @@ def GoVal.typeName : GoVal → Bytes
   | .slice _ _ _ _ => []
   | .array _ _ _ => []
   | .map _ _ _ _ => []
-  | .other _ _ => []
+  | .other _ _ n _ => n
   | v => v.typeString
 
 mutual
@@ -187,7 +187,7 @@ def GoVal.isZero : GoVal → Bool
   | .array _ _ es => es.allZero
   | .map _ _ isNil _ => isNil
   | .struct _ _ _ fs => fs.allZero
-  | .other _ _ => false      -- func/chan: nil-ness; the harness only sends non-nil ones
+  | .other _ _ _ z => z
 def GoVals.allZero : GoVals → Bool
   | .nil => true
   | .cons v vs => v.isZero && vs.allZero
